@@ -171,8 +171,8 @@ def gen_query(R, funcs):
     for n, k in funcs.items():
         reg[n] = FUNC_KINDS[k]
     cfg = G.Cfg(filters=True, registry=reg, max_depth=2, max_segments=3)
-    cfg.names = ["a", "b", "c", "id", 'q"r', "a'b", "a"]
-    cfg.lit_pool = [None, True, 0, 1, 2, 7, "a", "b", 'x"y', "it's", 1.5]
+    cfg.names = ["a", "b", "c", "id", 'q"r', "a'b", "a", "n\nl", "\t", "b\bf\f"]
+    cfg.lit_pool = [None, True, 0, 1, 2, 7, "a", "b", 'x"y', "it's", 1.5, "l\nf", "\t", "\r\n", "\b\f/\\"]
     cfg.indices = [0, 1, -1, 2, 0, 1, 7, -7, 60, -60, 2**60]
     gen = G.QGen(R, cfg)
     r = R.random()
@@ -215,8 +215,8 @@ REJECTED = ["$['ab\x01cd']", '$["xy\\uD800"]', "$[?@.a == 'pq\\z']", "$.a[?@.b =
 
 def gen_doc(R):
     leaves = [None, True, False, 0, 1, 2, 7, 1.5, "", "a", "b", "x"]
-    names = ["a", "b", "c", "id", "items", "limit", 'q"r', "a'b"]
-    leaves = leaves + ['x"y', "it's"]
+    names = ["a", "b", "c", "id", "items", "limit", 'q"r', "a'b", "n\nl", "\t", "b\bf\f"]
+    leaves = leaves + ['x"y', "it's", "l\nf", "\t", "\r\n", "\b\f/\\"]
     d = D.gen_value(R, names, leaves, 0, R.choice([2, 3, 4]), 4)
     if not isinstance(d, (list, dict)) or R.random() < 0.4:
         d = {"items": [D.gen_value(R, names, leaves, 1, 3, 3) for _ in range(R.randint(1, 4))], "limit": R.choice(leaves), "a": R.choice(leaves), "b": [R.choice(leaves)],
@@ -234,7 +234,30 @@ def gen_doc(R):
                 o["id"] = counter[0]
             return o
         return v
-    return uniq(d)
+    d = uniq(d)
+    if R.random() < 0.25:
+        # the same container object in two places (shared, not cyclic): equal data, whatever is shared
+        subs = []
+
+        def collect(v):
+            for x in (v.values() if isinstance(v, dict) else v if isinstance(v, list) else ()):
+                if isinstance(x, (list, dict)):
+                    subs.append(x)
+                    collect(x)
+        collect(d)
+        if subs:
+            x = R.choice(subs)
+            if isinstance(d, list):
+                d.append(x)
+            else:
+                d["alias"] = x
+    return d
+
+
+def _contains(v, target):
+    if v is target:
+        return True
+    return any(_contains(x, target) for x in (v.values() if isinstance(v, dict) else v if isinstance(v, list) else ()))
 
 
 def mutate_in_place(R, doc):
